@@ -207,7 +207,7 @@ fn attr_str<R: Reader<Offset = usize>>(dwarf: &gimli::Dwarf<R>, unit: &gimli::Un
 }
 
 /// Everything the reader can tell about the sections, as strings (reader-type independent).
-fn dump<R: Reader<Offset = usize>>(dwarf: &gimli::Dwarf<R>) -> Vec<String> {
+pub fn dump<R: Reader<Offset = usize>>(dwarf: &gimli::Dwarf<R>) -> Vec<String> {
     let mut out = Vec::new();
     let mut it = dwarf.units();
     loop {
@@ -462,6 +462,44 @@ fn check_units(ch: &mut Choices, cx: &mut Ctx) -> R {
     }
     ensure!(!b.iter().any(|l| l.contains("error")), "c18/harness/output-unreadable", "{:?}", b.iter().find(|l| l.contains("error")));
     let _ = plain.debug_info.reader().len();
+    // a linker at work: every section that is only ever reached through relocated offsets is placed behind other data
+    // (a different amount for each), and each relocation is resolved against the section it NAMES. If a field were
+    // recorded against the wrong section, it would now point into the wrong place. The linked file must mean what the
+    // directly written file means.
+    {
+        const PADS: [(&str, usize); 8] = [(".debug_str", 5), (".debug_line_str", 9), (".debug_abbrev", 3), (".debug_line", 16), (".debug_ranges", 8), (".debug_rnglists", 24), (".debug_loc", 40), (".debug_loclists", 32)];
+        let pad_of = |name: &str| PADS.iter().find(|p| p.0 == name).map(|p| p.1).unwrap_or(0);
+        let mut linked: Map = Map::new();
+        for (name, bytes) in &rmap {
+            let mut v = vec![0xccu8; pad_of(name)];
+            v.extend_from_slice(bytes);
+            linked.insert(name, v);
+        }
+        for (name, rs) in &relocs {
+            let own = pad_of(name);
+            let bytes = linked.get_mut(name).unwrap();
+            for r in rs {
+                let v = match r.target {
+                    w::RelocationTarget::Symbol(sy) => SYMBOL_ADDRESSES[sy].wrapping_add(r.addend as u64),
+                    w::RelocationTarget::Section(id) => (pad_of(id.name()) as u64).wrapping_add(r.addend as u64),
+                };
+                store(bytes, own + r.offset, r.size, v, m.big);
+            }
+        }
+        let direct_dwarf = crate::c12::load_map(&dmap, m.big);
+        if let Ok(d_direct) = crate::sem::dwarf_dump(&direct_dwarf) {
+            let linked_dwarf = crate::c12::load_map(&linked, m.big);
+            match crate::sem::dwarf_dump(&linked_dwarf) {
+                Ok(d_linked) => {
+                    if let Some(diff) = crate::sem::diff_dumps(&d_direct, &d_linked) {
+                        fail!("c18/write/linked-differs-from-direct", "after placing the sections at different offsets and resolving each relocation against the section it names: {} - {}", diff.0, diff.1);
+                    }
+                    cx.label("units: linked image (shifted sections) means what the direct output means");
+                }
+                Err(e) => fail!("c18/write/linked-unreadable", "{}", e),
+            }
+        }
+    }
     Ok(())
 }
 
